@@ -134,6 +134,21 @@ def ChipState.WF (c : ChipState) : Prop :=
   c.sdram < 4294967296 ∧ c.sram < 4294967296 ∧ c.rtr < 2048 ∧
   c.ip0 < 256 ∧ c.ip1 < 256 ∧ c.ip2 < 256 ∧ c.ip3 < 256 ∧ c.ethX < 256 ∧ c.ethY < 256
 
+/-! ## which cores answer commands
+
+Machine specification: a command (memory read, `sver`, ...) addressed to core `p` of a chip is answered by the
+software running on that core.  Core 0 is the monitor (SC&MP) and always answers.  An application core answers only
+while SARK's event handling is alive on it: states wait, c_main, run, sync0, sync1 and pause.  It does not answer
+when nothing was ever loaded (idle), when the core is dead, powered down, caught by the watchdog or stopped in a
+run-time exception, nor in the transitory init state or after the application has returned (exit) - the cautious
+reading of the state documentation in consts.py.  A command to a core that does not answer gets no reply at all.
+Every decoder above takes the chip's memory as read through the monitor. -/
+
+/-- states in which an application core answers commands -/
+def SARK_ALIVE : List Nat := [5, 6, 7, 8, 9, 10]
+
+def coreAnswers (p state : Nat) : Bool := p == 0 || SARK_ALIVE.contains state
+
 /-! ## P2P routing table -/
 
 /-- entries of one table word: `for entry in range(n)`: row, `(word >> 3*entry) & 0b111` -/
@@ -997,6 +1012,10 @@ def handle (op : String) (j : Json) : R Json := do
           [(vbase + L.vcpuSize * p, statusBlockL L s swTop name16 pad)]
     pure (Json.mkObj [("mem", segsToJson (head ++ [(ROUTER_DIAG_ADDR, diag.flatMap le32)] ++ chainSegs blocks)),
       ("text", jNats (chainText blocks)), ("status", statusToJson s)])
+  | "spec_answers" =>
+    -- the states (of the generated enumeration) in which an application core / the monitor answers commands
+    pure (Json.mkObj [("app", jNats (APPSTATE_VALUES.filter (coreAnswers 1))),
+                      ("monitor", jNats (APPSTATE_VALUES.filter (coreAnswers 0)))])
   | "spec_sver_legacy" =>
     pure (sverToJson (sverLegacy (← nat j "x") (← nat j "y") (← nat j "pcpu") (← nat j "vcpu") (← nat j "buf")
       (← nat j "date") (← nat j "major") (← nat j "minor") (← nats j "name")))
